@@ -24,9 +24,16 @@ structure Sim (c : Cfg) (s : St) (r : Ref) : Prop where
   chain : ∀ ck seen, r.chain = some (ck, seen) → 1 ≤ c.cookieCap →
     ∀ id ∈ seen, id < s.nextId ∧
       ((∃ k, (k, id) ∈ s.byPeer) → ∃ st, lookup ck s.cookies = some st ∧ id ∈ st)
+  clen : s.cookies.length ≤ s.nextCookie
+  dlt : ∀ e ∈ r.delivered, e.1.1 < s.nextCookie
+  /-- as long as at most `max_cookies` cookies were issued nothing was evicted: the ids delivered along
+  the chain of EVERY issued cookie that are still current are recorded under that cookie -/
+  deliv : s.nextCookie ≤ c.cookieCap → ∀ ck seen, lookup ck r.delivered = some seen →
+    ∀ id ∈ seen, id < s.nextId ∧
+      ((∃ k, (k, id) ∈ s.byPeer) → ∃ st, lookup ck s.cookies = some st ∧ id ∈ st)
 
 theorem sim_init (c : Cfg) : Sim c St.init Ref.init := by
-  constructor <;> simp [St.init, Ref.init, liveBP, liveRegs]
+  constructor <;> simp [St.init, Ref.init, liveBP, liveRegs, lookup]
 
 /-- `Registrations::remove` on the two tables = deleting the key from the reference map -/
 theorem remove_tables {s : St} {l : List (Key × Live)} (hbp : s.byPeer = liveBP l)
@@ -106,7 +113,7 @@ theorem reg_sim (c : Cfg) (hmin : 1 ≤ c.minTtl) {s : St} {r : Ref} (h : Sim c 
     · simp only [hrej, if_false, specStep, hv]
       rw [remove_tables h.bp h.regs h.idnd h.keynd]
       dsimp only
-      obtain ⟨hbp, hregs, hnow, hnid, hnck, hidlt, hidnd, hkeynd, htimer, htlt, htnd, hchain⟩ := h
+      obtain ⟨hbp, hregs, hnow, hnid, hnck, hidlt, hidnd, hkeynd, htimer, htlt, htnd, hchain, hclen, hdlt, hdeliv⟩ := h
       generalize hT : ttlOpt.getD DEFAULT_TTL = ttl at *
       have httl : 1 ≤ ttl := by omega
       have hsub : ∀ e ∈ List.filter (fun e => !decide (e.fst = (peer, ns))) r.live, e ∈ r.live ∧ e.1 ≠ (peer, ns) := by
@@ -209,6 +216,22 @@ theorem reg_sim (c : Cfg) (hmin : 1 ≤ c.minTtl) {s : St} {r : Ref} (h : Sim c 
             exact ⟨k, by rw [hbp]; exact mem_liveBP.2 ⟨e', (hsub e' he').1, hk1, hi⟩⟩
           · simp only [List.mem_singleton, Prod.mk.injEq] at hk
             omega
+        · exact hclen
+        · exact hdlt
+        · -- delivered
+          intro hcap ck seen hck id hid
+          dsimp only at hck ⊢
+          have := hdeliv hcap ck seen hck id hid
+          refine ⟨by omega, ?_⟩
+          rintro ⟨k, hk⟩
+          apply this.2
+          unfold bimapInsert at hk
+          rcases List.mem_append.1 hk with hk | hk
+          · have hk := (List.mem_filter.1 hk).1
+            obtain ⟨e', he', hk1, hi⟩ := mem_liveBP.1 hk
+            exact ⟨k, by rw [hbp]; exact mem_liveBP.2 ⟨e', (hsub e' he').1, hk1, hi⟩⟩
+          · simp only [List.mem_singleton, Prod.mk.injEq] at hk
+            omega
       · rw [hlk, hcnt, hlen] at hrej
         cases hh : (lookup (peer, ns) r.live).isNone
         · simp
@@ -222,18 +245,25 @@ theorem unreg_sim (c : Cfg) {s : St} {r : Ref} (h : Sim c s r) (peer ns : Nat) :
     (specStep c r (.unreg peer ns) (step c s (.unreg peer ns)).2).2 = "ok" := by
   simp only [step, stepV, specStep]
   rw [remove_tables h.bp h.regs h.idnd h.keynd]
-  obtain ⟨hbp, hregs, hnow, hnid, hnck, hidlt, hidnd, hkeynd, htimer, htlt, htnd, hchain⟩ := h
+  obtain ⟨hbp, hregs, hnow, hnid, hnck, hidlt, hidnd, hkeynd, htimer, htlt, htnd, hchain, hclen, hdlt, hdeliv⟩ := h
   have hsub : ∀ e ∈ List.filter (fun e => !decide (e.fst = (peer, ns))) r.live, e ∈ r.live :=
     fun e he => (List.mem_filter.1 he).1
   refine ⟨⟨rfl, rfl, hnow, hnid, hnck, fun e he => hidlt e (hsub e he), nodup_map_filter _ _ hidnd,
-    nodup_map_filter _ _ hkeynd, fun e he => htimer e (hsub e he), htlt, htnd, ?_⟩, trivial⟩
-  intro ck seen hck hcap id hid
-  have := hchain ck seen hck hcap id hid
-  refine ⟨this.1, ?_⟩
-  rintro ⟨k, hk⟩
-  apply this.2
-  obtain ⟨e', he', hk1, hi⟩ := mem_liveBP.1 hk
-  exact ⟨k, by rw [hbp]; exact mem_liveBP.2 ⟨e', hsub e' he', hk1, hi⟩⟩
+    nodup_map_filter _ _ hkeynd, fun e he => htimer e (hsub e he), htlt, htnd, ?_, hclen, hdlt, ?_⟩, trivial⟩
+  · intro ck seen hck hcap id hid
+    have := hchain ck seen hck hcap id hid
+    refine ⟨this.1, ?_⟩
+    rintro ⟨k, hk⟩
+    apply this.2
+    obtain ⟨e', he', hk1, hi⟩ := mem_liveBP.1 hk
+    exact ⟨k, by rw [hbp]; exact mem_liveBP.2 ⟨e', hsub e' he', hk1, hi⟩⟩
+  · intro hcap ck seen hck id hid
+    have := hdeliv hcap ck seen hck id hid
+    refine ⟨this.1, ?_⟩
+    rintro ⟨k, hk⟩
+    apply this.2
+    obtain ⟨e', he', hk1, hi⟩ := mem_liveBP.1 hk
+    exact ⟨k, by rw [hbp]; exact mem_liveBP.2 ⟨e', hsub e' he', hk1, hi⟩⟩
 
 /-- a current registration's id is among the due ids exactly when its own deadline has passed -/
 theorem due_iff {c : Cfg} {s : St} {r : Ref} (h : Sim c s r) (t : Nat) {e : Key × Live} (he : e ∈ r.live) :
@@ -273,7 +303,7 @@ theorem adv_sim (c : Cfg) {s : St} {r : Ref} (h : Sim c s r) (d : Nat) :
     (specStep c r (.adv d) (step c s (.adv d)).2).2 = "ok" := by
   simp only [step, stepV, advance, specStep]
   have hdue := fun e he => due_iff h (s.now + d) (e := e) he
-  obtain ⟨hbp, hregs, hnow, hnid, hnck, hidlt, hidnd, hkeynd, htimer, htlt, htnd, hchain⟩ := h
+  obtain ⟨hbp, hregs, hnow, hnid, hnck, hidlt, hidnd, hkeynd, htimer, htlt, htnd, hchain, hclen, hdlt, hdeliv⟩ := h
   have hkeep : List.filter (fun e => !(dueIds s (s.now + d)).contains e.2.id) r.live
       = List.filter (fun e => decide (s.now + d < e.2.deadline)) r.live := by
     apply List.filter_congr
@@ -313,6 +343,24 @@ theorem adv_sim (c : Cfg) {s : St} {r : Ref} (h : Sim c s r) (d : Nat) :
     · intro ck seen hck hcap id hid
       dsimp only at hck ⊢
       have := hchain ck seen hck hcap id hid
+      refine ⟨this.1, ?_⟩
+      rintro ⟨k, hk⟩
+      have hk' := List.mem_filter.1 hk
+      obtain ⟨st, hst, hidst⟩ := this.2 ⟨k, hk'.1⟩
+      have hnotdue : (!(dueIds s (s.now + d)).contains id) = true := hk'.2
+      split
+      · exact ⟨st, hst, hidst⟩
+      · have hmem : id ∈ st.filter (fun i => !(dueIds s (s.now + d)).contains i) :=
+          List.mem_filter.2 ⟨hidst, hnotdue⟩
+        refine ⟨_, lookup_filterMap_retain _ ck s.cookies st hst (List.ne_nil_of_mem hmem), hmem⟩
+    · dsimp only
+      split
+      · exact hclen
+      · exact Nat.le_trans (List.length_filterMap_le _ _) hclen
+    · exact hdlt
+    · intro hcap ck seen hck id hid
+      dsimp only at hck ⊢
+      have := hdeliv hcap ck seen hck id hid
       refine ⟨this.1, ?_⟩
       rintro ⟨k, hk⟩
       have hk' := List.mem_filter.1 hk
@@ -408,15 +456,27 @@ theorem disc_sim (c : Cfg) {s : St} {r : Ref} (h : Sim c s r)
   · simp only [hm, if_true, specStep]
     exact ⟨h, fun _ => trivial⟩
   · simp only [hm, Bool.false_eq_true, if_false]
+    have hc1 : ∀ k, lookup k (match cookie with
+        | some ck => (lruGet s.cookies ck).2
+        | none => s.cookies) = lookup k s.cookies := by
+      intro k; cases cookie with
+      | none => rfl
+      | some ck => exact lruGet_snd_lookup _ _ _
+    have hc1len : (match cookie with
+        | some ck => (lruGet s.cookies ck).2
+        | none => s.cookies).length ≤ s.cookies.length := by
+      cases cookie with
+      | none => exact Nat.le_refl _
+      | some ck => exact lruGet_snd_length _ _
     generalize (match cookie with
       | some ck => (lruGet s.cookies ck).2
-      | none => s.cookies) = cookies1
+      | none => s.cookies) = cookies1 at hc1 hc1len ⊢
     generalize hfound : (cookie.bind fun ck => lookup ck s.cookies) = found
     unfold getCore
     by_cases hvc : validChoice (candidates s q (found.getD [])) limit chosen = true
     · simp only [hvc, Bool.not_true, Bool.false_eq_true, if_false]
       obtain ⟨hall, hnd⟩ := validChoice_spec hvc
-      obtain ⟨hbp, hregs, hnow, hnid, hnck, hidlt, hidnd, hkeynd, htimer, htlt, htnd, hchain⟩ := h
+      obtain ⟨hbp, hregs, hnow, hnid, hnck, hidlt, hidnd, hkeynd, htimer, htlt, htnd, hchain, hclen, hdlt, hdeliv⟩ := h
       have hex : ∀ id ∈ chosen, ∃ e ∈ r.live, e.2.id = id ∧ nsMatch q e.1.2 = true ∧ id ∉ found.getD [] ∧
           ∃ k, (k, id) ∈ s.byPeer := by
         intro id hid
@@ -457,8 +517,60 @@ theorem disc_sim (c : Cfg) {s : St} {r : Ref} (h : Sim c s r)
               simp only [Option.bind_some, hst, Option.getD_some]
               exact hidst
             · simp [hck] at hid
+      -- … and so are the ids delivered along the chain of ANY issued cookie, while nothing was evicted
+      generalize hprevA : deliveredPrev r.delivered cookie = prevAll
+      have hprevQ : s.nextCookie ≤ c.cookieCap → ∀ id ∈ prevAll,
+          id < s.nextId ∧ ((∃ k, (k, id) ∈ s.byPeer) → id ∈ found.getD []) := by
+        intro hcap id hid
+        rw [← hprevA] at hid
+        unfold deliveredPrev at hid
+        cases cookie with
+        | none => simp at hid
+        | some ck' =>
+          simp only [Option.bind_some] at hid
+          cases hlk : lookup ck' r.delivered with
+          | none => simp [hlk] at hid
+          | some seen =>
+            simp only [hlk, Option.getD_some] at hid
+            have := hdeliv hcap ck' seen hlk id hid
+            refine ⟨this.1, fun hk => ?_⟩
+            obtain ⟨st, hst, hidst⟩ := this.2 hk
+            rw [← hfound]
+            simp only [Option.bind_some, hst, Option.getD_some]
+            exact hidst
       constructor
-      · refine ⟨hbp, hregs, hnow, hnid, by dsimp only; rw [hnck], hidlt, hidnd, hkeynd, htimer, htlt, htnd, ?_⟩
+      · refine ⟨hbp, hregs, hnow, hnid, by dsimp only; rw [hnck], hidlt, hidnd, hkeynd, htimer, htlt, htnd, ?_, ?_, ?_, ?_⟩
+        rotate_left
+        · -- cache length
+          dsimp only
+          have := lruInsert_length c.cookieCap cookies1 (s.nextCookie, q) (found.getD [] ++ chosen)
+          omega
+        · -- issued cookies are older than the next one
+          intro e he
+          dsimp only at he ⊢
+          rcases List.mem_append.1 he with he | he
+          · have := hdlt e he; omega
+          · simp only [List.mem_singleton] at he; subst he; dsimp only; omega
+        · -- delivered sets
+          intro hcap ck seen hck id hid
+          dsimp only at hck hcap ⊢
+          rcases lookup_append_single hck with hold | ⟨_, hkeq, hseen⟩
+          · have hlt := hdlt _ (lookup_some_mem hold)
+            have hne : ck ≠ (s.nextCookie, q) := by
+              intro h; rw [h] at hlt; simp at hlt
+            have := hdeliv (by omega) ck seen hold id hid
+            refine ⟨this.1, fun hk => ?_⟩
+            obtain ⟨st, hst, hidst⟩ := this.2 hk
+            refine ⟨st, ?_, hidst⟩
+            rw [lruInsert_noevict _ _ _ _ _ (by omega) hne, hc1, hst]
+          · subst hkeq hseen
+            rw [hnck, lruInsert_lookup _ (by omega)]
+            rcases List.mem_append.1 hid with hid | hid
+            · have := hprevQ (by omega) id hid
+              exact ⟨this.1, fun hk => ⟨_, rfl, List.mem_append_left _ (this.2 hk)⟩⟩
+            · rw [hmap] at hid
+              obtain ⟨e, he, hi, _⟩ := hex id hid
+              exact ⟨by rw [← hi]; exact hidlt e he, fun _ => ⟨_, rfl, List.mem_append_right _ hid⟩⟩
         intro ck seen hck hcap id hid
         dsimp only at hck ⊢
         simp only [Option.some.injEq, Prod.mk.injEq] at hck
@@ -499,7 +611,20 @@ theorem disc_sim (c : Cfg) {s : St} {r : Ref} (h : Sim c s r)
               exact hns ((hprevP hcap id (by simpa using hc)).2 hk)
             rw [this, Bool.and_false]
           · simp [hcap]
-        rw [if_neg (by simp [hlive]), if_neg (by simp [hndE]), if_neg (by rw [hdisj]; exact Bool.false_ne_true)]
+        have hdisj2 : (decide (r.nextCookie ≤ c.cookieCap) && (entries.map (·.1)).any (prevAll.contains ·)) = false := by
+          by_cases hcap : s.nextCookie ≤ c.cookieCap
+          · have : (entries.map (·.1)).any (prevAll.contains ·) = false := by
+              apply Bool.eq_false_iff.2
+              intro hany
+              rw [List.any_eq_true] at hany
+              obtain ⟨id, hid, hc⟩ := hany
+              rw [hmap] at hid
+              obtain ⟨e, he, hi, _, hns, hk⟩ := hex id hid
+              exact hns ((hprevQ hcap id (by simpa using hc)).2 hk)
+            rw [this, Bool.and_false]
+          · rw [hnck]; simp [hcap]
+        rw [if_neg (by simp [hlive]), if_neg (by simp [hndE]), if_neg (by rw [hdisj]; exact Bool.false_ne_true),
+          if_neg (by rw [hdisj2]; exact Bool.false_ne_true)]
     · simp only [hvc, Bool.not_false, if_true, specStep]
       exact ⟨h, fun hne => absurd rfl hne⟩
 
